@@ -234,9 +234,9 @@ def run_rules(mod, ctx: Ctx, only: Optional[set[str]] = None) -> None:
             inline_test_flags_repo(ctx.repo)
         n_canon += canon_repo(ctx.repo)
         if os.environ.get("SA_NO_APPENDLOOPS") != "1":
-            from .canon2 import append_loops_repo
+            from .canon2 import append_loops_repo, counting_loops_repo
 
-            n_al = append_loops_repo(ctx.repo)
+            n_al = append_loops_repo(ctx.repo) + counting_loops_repo(ctx.repo)
             if n_al:
                 ctx.note(f"append loops rewritten as the comprehension they spell out (sa/canon2.py C19): {n_al}")
         if os.environ.get("SA_NO_ALIAS") != "1":
